@@ -1,0 +1,64 @@
+//go:build verif
+
+/*
+ * SPDX-License-Identifier: Apache-2.0
+ */
+
+package y
+
+import (
+	"sync/atomic"
+)
+
+// VerifEnabled reports whether verification hooks are compiled in (build tag "verif").
+const VerifEnabled = true
+
+// VerifHandler receives hook notifications. kind is 'E' for an event (emitted after a
+// state change, while the lock protecting that state is still held; must not block)
+// or 'G' for a gate (a schedule point where no lock is held; the handler may block the
+// calling goroutine). seq is a process-wide sequence number taken at the call.
+type VerifHandler func(kind byte, point string, seq uint64, kv []interface{})
+
+type verifHandlerBox struct{ h VerifHandler }
+
+var (
+	verifHandler atomic.Pointer[verifHandlerBox]
+	verifSeq     atomic.Uint64
+	verifClock   atomic.Int64 // 0 = real clock; otherwise unix seconds
+)
+
+// VerifSetHandler installs (or, with nil, removes) the process-wide hook handler.
+func VerifSetHandler(h VerifHandler) {
+	if h == nil {
+		verifHandler.Store(nil)
+		return
+	}
+	verifHandler.Store(&verifHandlerBox{h: h})
+}
+
+// VerifEvent reports an event to the installed handler, if any.
+func VerifEvent(point string, kv ...interface{}) {
+	if b := verifHandler.Load(); b != nil {
+		b.h('E', point, verifSeq.Add(1), kv)
+	}
+}
+
+// VerifGate reports a schedule point to the installed handler, if any. The handler
+// may block.
+func VerifGate(point string, kv ...interface{}) {
+	if b := verifHandler.Load(); b != nil {
+		b.h('G', point, verifSeq.Add(1), kv)
+	}
+}
+
+// VerifSetClock overrides the clock used for expiry checks (unix seconds); 0 restores
+// the real clock.
+func VerifSetClock(unix int64) { verifClock.Store(unix) }
+
+// VerifNowUnix returns the overridden clock, if one is set.
+func VerifNowUnix() (uint64, bool) {
+	if v := verifClock.Load(); v != 0 {
+		return uint64(v), true
+	}
+	return 0, false
+}
